@@ -1,0 +1,42 @@
+//go:build verif
+
+// Contracts for the tvc verifier (/verif). Comment-only: with the `verif` tag off this file does not exist,
+// with it on it adds no code. Syntax: /verif/DESIGN.md appendix A.
+
+package main
+
+//@ for C20
+
+//@ # ghost view of the generated chain (the gabs JSON container itself is abstracted):
+//@ #   c20cilium  - a cilium-cni entry has been written to the output list
+//@ #   c20dp      - the virtual type last written into a terway plugin ("" = none yet)
+//@ #   c20vtset   - the current input plugin got its virtual type written
+//@ ghost c20cilium bool = false
+//@ ghost c20dp string = ""
+//@ ghost c20vtset bool = false
+
+//@ pure func supportedVT(s string) bool = s == "veth" || s == "ipvlan" || s == "datapathv2"
+
+//@ # every virtual type / bandwidth mode written into a plugin is one of the supported values
+//@ guard call Container.Set: !(len(arg1) == 1 && arg1[0] == "eniip_virtual_type") || (isStr(arg0) && supportedVT(strOf(arg0)))
+//@ guard call Container.Set: !(len(arg1) == 1 && arg1[0] == "bandwidth_mode") || (isStr(arg0) && (strOf(arg0) == "edt" || strOf(arg0) == "tc"))
+//@ # a terway plugin goes to the output list with a canonical virtual type whenever the kernel has eBPF support
+//@ guard call Container.ArrayConcat: !(pluginType == "terway" && ebpfSupport) || c20vtset
+//@ # the chainer is never emitted on a kernel without eBPF support
+//@ guard call Container.ArrayAppend: ebpfSupport
+
+//@ func mergeConfigList
+//@   requires f != nil
+//@   at call ParseJSON: ghost c20vtset = false
+//@   at call Container.Set: ghost c20vtset = c20vtset || (len(arg1) == 1 && arg1[0] == "eniip_virtual_type")
+//@   at call Container.Set: ghost c20dp = ite(len(arg1) == 1 && arg1[0] == "eniip_virtual_type", strOf(arg0), c20dp)
+//@   at call Container.ArrayConcat: ghost c20cilium = c20cilium || pluginType == "cilium-cni"
+//@   at call Container.ArrayAppend: ghost c20cilium = true
+//@   loop 1 invariant (c20dp == "ipvlan" || c20dp == "datapathv2") ==> requireEBPFChainer
+//@   loop 1 invariant ebpfChainerExist ==> c20cilium
+//@   loop 1 invariant !ebpfSupport ==> !c20cilium
+//@   loop 1 invariant ebpfSupport == f.EBPF
+//@   loop 1 invariant c20dp == "" || supportedVT(c20dp)
+//@   # an eBPF chainer whenever the selected datapath requires one, never one on a kernel without eBPF support
+//@   ensures result1 == nil && f.EBPF && (c20dp == "ipvlan" || c20dp == "datapathv2") ==> c20cilium
+//@   ensures result1 == nil && !f.EBPF ==> !c20cilium
